@@ -25,9 +25,9 @@ chk("C05", "translation_validation",
     "np.linalg.inv treated as an uninterpreted function of its argument (argument proved equal to S); gates assumed; posterior<=prior by nlsat only for m=1.",
     "symbolic execution of the real Python + SMT equivalence with inverse cut-point", "E1-symreal", "5/C05")
 chk("C06", "translation_validation",
-    "Decision equivalence as validity queries: remove_innovation's returned condition, and the reject-leaf path condition of sensor_model, are equivalent to z'S^-1 z > k*sqrt(2m)+m for all k>0, z, S^-1 (m=1..3, thorough up to 8); reject returns the input objects with unchanged terms and records z-h; disabled filtering has no reject path. C++ side joins when E2 is built.",
-    "sqrt(2m) is the exact rational of the double the code computes; everything else over reals.",
-    "symbolic execution (path conditions) + SMT validity of decision equivalence", "E1-symreal", "5/C06")
+    "Decision equivalence as validity queries: remove_innovation's returned condition, and the reject-leaf path condition of sensor_model, are equivalent to z'S^-1 z > k*sqrt(2m)+m for all k>0, z, S^-1 (m=1..3, thorough up to 8); reject returns the input objects with unchanged terms and records z-h; disabled filtering has no reject path; sequences of sensors of different size on one filter object. C++: removeInnovation<m> and the generated sensor_model reject leaf are equivalent to the same specification (so Python, helper and generated filter agree); and in IEEE-754 binary64 (QF_FP) the helper's decision equals n > fl(fl(k*sqrt(2m))+m) for all finite doubles in range, i.e. also at and within an ulp of the boundary.",
+    "Reals except sqrt(2m) (the code's double) and the dedicated QF_FP boundary clause for the C++ helper (NIS abstracted as one free double).",
+    "symbolic execution (path conditions) + SMT validity of decision equivalence (QF_NRA) + QF_FP boundary query", "E1-symreal + E2-vsym", "5/C06")
 
 chk("C02", "translation_validation",
     "The C++ header+source generated from the current tree are compiled (g++ -std=c++17) and executed with double replaced by a symbolic scalar; every output of Model::model, ProcessModel::model/process_jacobian/control_jacobian/covariance and each <Reading>SensorModel::model/jacobian/covariance, read through named accessors, is proved equal for ALL inputs to the symbolic expression, the harness-differentiated partial derivative or the configured noise entry; four control x calibration combinations, CSE on/off, sensors of 1..3 readings; unassigned entries appear as poison variables.",
